@@ -104,7 +104,7 @@ Proof. exact stale_target_is_reset. Qed.
 Print Assumptions C19_stale_figure_is_reset.
 
 (* ---- D7: "raises only audit-pass or audit-skip in a healthy execution" is false of the code ---- *)
-Definition d7_cfg : cfg := mkCfg V2 4 false false 0 0 (10 * ms) (5 * ms) 0 0 [mkW 0 0 0] 0 0 0.
+Definition d7_cfg : cfg := mkCfg V2 4 false false 0 0 (10 * ms) (5 * ms) 0 0 [mkW 0 0 0] 0 0 0 0.
 Definition d7_labels : list label :=
   [AStart; AEnqueue (mkE false (Some 0%nat) 1 7 7 true 0 true);
    TAdvance (10 * ms); ITick TkAudit; ILoopAuditCheck; ILoopAuditConfirm; ARelease 0; IEnqInsert 0].
@@ -127,7 +127,7 @@ Proof. split; reflexivity. Qed.
 
 (* non-vacuity: a stale figure (an operation whose reported cost shrank between enqueue and completion)
    is found and repaired by the first audit after the idle period *)
-Definition st_cfg : cfg := mkCfg V2 4 false false 0 0 (300 * ms) (50 * ms) 0 0 [mkW 0 0 0] 0 0 0.
+Definition st_cfg : cfg := mkCfg V2 4 false false 0 0 (300 * ms) (50 * ms) 0 0 [mkW 0 0 0] 0 0 0 0.
 Definition st_labels : list label :=
   [AStart; AEnqueue (mkE false (Some 0%nat) 1 9 4 false (10 * ms) false); IEnqInsert 0;
    TAdvance (100 * ms); ITick TkFlush; ITick TkCap; ILoopCap; ILoopFlushTick; ICycleBegin; ICycleVisit; ICycleVisit; ICycleEnd;
